@@ -62,3 +62,22 @@ def runExt : State → Ext → List Op → State × Ext
   | s, x, op :: ops => runExt (step s op).1 (x.next s op) ops
 
 end FxVerif.Model.C05
+
+namespace FxVerif.Model.C05
+open FxVerif.Gen.C05
+
+/-- admissibility is decidable (used by the driver, which prints it next to every observation) -/
+instance (x : Ext) : (op : Op) → Decidable (admissible x op)
+  | .observe h (.batch t n) => by unfold admissible; exact inferInstance
+  | .observe h (.result c _) => by unfold admissible; exact inferInstance
+  | .observe h .other => by unfold admissible; exact inferInstance
+  | .send .. => isTrue trivial
+  | .cancel .. => isTrue trivial
+  | .incFee .. => isTrue trivial
+  | .reqBatch .. => isTrue trivial
+  | .bridgeCall .. => isTrue trivial
+  | .exec .. => isTrue trivial
+  | .setParams .. => isTrue trivial
+  | .block .. => isTrue trivial
+
+end FxVerif.Model.C05
